@@ -153,22 +153,25 @@ class DeviceInfoCache:
         if (cache_id is not None) and (device_info.deviceIdentifier != cache_id):
             if _debug: DeviceInfoCache._debug("    - device identifier updated")
 
-            # remove the old reference, add the new one
-            del self.cache[cache_id]
+            # remove the old reference unless another record has taken it
+            # over in the meantime, add the new one
+            if self.cache.get(cache_id, None) is device_info:
+                del self.cache[cache_id]
             self.cache[device_info.deviceIdentifier] = device_info
 
         if (cache_address is not None) and (device_info.address != cache_address):
             if _debug: DeviceInfoCache._debug("    - device address updated")
 
-            # remove the old reference, add the new one
-            del self.cache[cache_address]
+            # remove the old reference unless another record has taken it
+            # over in the meantime, add the new one
+            if self.cache.get(cache_address, None) is device_info:
+                del self.cache[cache_address]
             self.cache[device_info.address] = device_info
 
-        # a new record is not in the cache yet
-        if cache_id is None:
-            self.cache[device_info.deviceIdentifier] = device_info
-        if cache_address is None:
-            self.cache[device_info.address] = device_info
+        # a new record is not in the cache yet, and the record updated last
+        # is the one its identifier and its address refer to
+        self.cache[device_info.deviceIdentifier] = device_info
+        self.cache[device_info.address] = device_info
 
         # update the keys
         device_info._cache_keys = (device_info.deviceIdentifier, device_info.address)
